@@ -563,9 +563,83 @@ theorem nodup_encStr_keys (es : List (Bytes × Bytes)) (hn : (es.map Prod.fst).N
   rw [this]
   exact List.Pairwise.map encStr (fun _ _ hab h => hab (encStr_inj h)) hn
 
-theorem sortedBy_byEncodedKey_perm {es₁ es₂ : List (Bytes × Bytes)} (hp : es₁.Perm es₂)
-    (hn : (es₁.map Prod.fst).Nodup) : sortedBy byEncodedKey es₁ = sortedBy byEncodedKey es₂ :=
-  sortedBy_key_perm_eq (fun e : Bytes × Bytes => encStr e.1) bytesLe bytesLe_total bytesLe_trans bytesLe_antisymm hp
-    (nodup_encStr_keys es₁ hn)
+theorem lexLe_total (a b : Bytes × Bytes) (h : lexLe a b = false) : lexLe b a = true := by
+  unfold lexLe at h ⊢
+  by_cases e : a.1 = b.1
+  · simp only [e, if_true] at h
+    simp only [e, if_true]
+    exact bytesLe_total _ _ h
+  · simp only [e, if_false] at h
+    have e' : ¬ b.1 = a.1 := fun h' => e h'.symm
+    simp only [e', if_false]
+    exact bytesLe_total _ _ h
+
+theorem lexLe_antisymm (a b : Bytes × Bytes) (h₁ : lexLe a b = true) (h₂ : lexLe b a = true) : a = b := by
+  unfold lexLe at h₁ h₂
+  by_cases e : a.1 = b.1
+  · simp only [e, if_true] at h₁ h₂
+    exact Prod.ext e (bytesLe_antisymm _ _ h₁ h₂)
+  · have e' : ¬ b.1 = a.1 := fun h' => e h'.symm
+    simp only [e, e', if_false] at h₁ h₂
+    exact absurd (bytesLe_antisymm _ _ h₁ h₂) e
+
+theorem lexLe_trans (a b c : Bytes × Bytes) (h₁ : lexLe a b = true) (h₂ : lexLe b c = true) : lexLe a c = true := by
+  unfold lexLe at h₁ h₂ ⊢
+  by_cases e₁ : a.1 = b.1
+  · by_cases e₂ : b.1 = c.1
+    · have e₃ : a.1 = c.1 := e₁.trans e₂
+      simp only [e₁, if_true] at h₁
+      simp only [e₂, if_true] at h₂
+      simp only [e₃, if_true]
+      exact bytesLe_trans _ _ _ h₁ h₂
+    · have e₃ : ¬ a.1 = c.1 := fun h => e₂ (e₁.symm.trans h)
+      simp only [e₂, if_false] at h₂
+      simp only [e₃, if_false]
+      rw [e₁]; exact h₂
+  · by_cases e₂ : b.1 = c.1
+    · have e₃ : ¬ a.1 = c.1 := fun h => e₁ (h.trans e₂.symm)
+      simp only [e₁, if_false] at h₁
+      simp only [e₃, if_false]
+      rw [← e₂]; exact h₁
+    · simp only [e₁, if_false] at h₁
+      simp only [e₂, if_false] at h₂
+      by_cases e₃ : a.1 = c.1
+      · rw [← e₃] at h₂
+        exact absurd (bytesLe_antisymm _ _ h₁ h₂) e₁
+      · simp only [e₃, if_false]
+        exact bytesLe_trans _ _ _ h₁ h₂
+
+/-- sorting by (f, then g) under `lexLe` gives one result for every order when (f, g) is injective —
+no distinctness of the elements is needed -/
+theorem sortedBy_lex_perm {α} (f g : α → Bytes) (inj : ∀ a b, f a = f b → g a = g b → a = b)
+    {l₁ l₂ : List α} (hp : l₁.Perm l₂) :
+    sortedBy (fun a b => lexLe (f a, g a) (f b, g b)) l₁ = sortedBy (fun a b => lexLe (f a, g a) (f b, g b)) l₂ := by
+  refine sortedBy_perm_eq (fun a b => lexLe (f a, g a) (f b, g b)) (fun a b => lexLe_total _ _)
+    (fun a b c => lexLe_trans _ _ _) hp ?_
+  intro a b _ _ h₁ h₂
+  have := lexLe_antisymm _ _ h₁ h₂
+  exact inj a b (congrArg Prod.fst this) (congrArg Prod.snd this)
+
+theorem sortedBy_byEncodedKey_perm {es₁ es₂ : List (Bytes × Bytes)} (hp : es₁.Perm es₂) :
+    sortedBy byEncodedKey es₁ = sortedBy byEncodedKey es₂ :=
+  sortedBy_lex_perm (fun e : Bytes × Bytes => encStr e.1) (fun e => encStr e.2)
+    (fun _ _ h₁ h₂ => Prod.ext (encStr_inj h₁) (encStr_inj h₂)) hp
+
+theorem encCVStr_inj {a b : Bytes} (h : encCVStr a = encCVStr b) : a = b := by
+  unfold encCVStr at h
+  simp only [List.append_assoc] at h
+  have h₁ := List.append_cancel_left (List.append_cancel_left (List.append_cancel_left h))
+  have h₂ : ([11, 0, 4] : Bytes) ++ (encStr a ++ ([2, 0, 5, 0] ++ ([11, 0, 8, 0, 0, 0, 0] ++ [0]))) =
+      [11, 0, 4] ++ (encStr b ++ ([2, 0, 5, 0] ++ ([11, 0, 8, 0, 0, 0, 0] ++ [0]))) := h₁
+  have h₃ := List.append_cancel_left h₂
+  have hl : (encStr a ++ ([2, 0, 5, 0] ++ ([11, 0, 8, 0, 0, 0, 0] ++ [0]))).length =
+      (encStr b ++ ([2, 0, 5, 0] ++ ([11, 0, 8, 0, 0, 0, 0] ++ [0]))).length := by rw [h₃]
+  simp only [List.length_append] at hl
+  exact encStr_inj (List.append_inj' h₃ (by simp)).1
+
+theorem sortedBy_byEncodedCV_perm {es₁ es₂ : List (Bytes × Bytes)} (hp : es₁.Perm es₂) :
+    sortedBy byEncodedCV es₁ = sortedBy byEncodedCV es₂ :=
+  sortedBy_lex_perm (fun e : Bytes × Bytes => encCVStr e.1) (fun e => encCVStr e.2)
+    (fun _ _ h₁ h₂ => Prod.ext (encCVStr_inj h₁) (encCVStr_inj h₂)) hp
 
 end Determinism
